@@ -523,7 +523,8 @@ func jget(n *JNode, key string) *JNode {
 	return nil
 }
 
-var envLit = regexp.MustCompile(`(?:Getenv|LookupEnv)\("([A-Za-z0-9_]+)"\)`)
+// a literal handed to Getenv / LookupEnv, or any upper-case string constant with an underscore (a name kept in a constant)
+var envLit = regexp.MustCompile(`(?:(?:Getenv|LookupEnv)\("([A-Za-z0-9_]+)"\))|"([A-Z][A-Z0-9]*(?:_[A-Z0-9]+)+)"`)
 
 // scrapeEnvNames: the environment variables the current sources read, minus the documented ones
 func scrapeEnvNames(src string) []string {
@@ -540,9 +541,13 @@ func scrapeEnvNames(src string) []string {
 			continue
 		}
 		for _, m := range envLit.FindAllStringSubmatch(string(b), -1) {
-			if !seen[m[1]] {
-				seen[m[1]] = true
-				out = append(out, m[1])
+			n := m[1]
+			if n == "" {
+				n = m[2]
+			}
+			if !seen[n] {
+				seen[n] = true
+				out = append(out, n)
 			}
 		}
 	}
